@@ -97,6 +97,14 @@ PROP = dict(
         "long, empty. The buffers are shared arguments: bytes identical after every call whether it fails or not, same verdict and value on "
         "repetition and for concurrent callers. Which verdict is right is C07's question, not asked here; length prefixes are never mutated "
         "(a huge prefix is allocated as told, DESIGN 11)",
+        "entry points taking an io.Writer / io.Reader together with a shared object (kzg SRS WriteTo/WriteRawTo/WriteDump with maxPkPoints absent, "
+        "below, equal and above len, ProvingKey, VerifyingKey, proofs, Pedersen keys, fft.Domain, iop.Polynomial, Vector, Encoder over shared "
+        "slices; the ReadFrom/UnsafeReadFrom/ReadDump family) run in four variants: plain; with a writer that fails permanently at its k-th Write "
+        "(k = 1..8, 11, 17, 33, 70), fails once and recovers, or writes short, the serialised object being snapshotted after EVERY fault and "
+        "probed for behaviour (Commit of a full-size polynomial on the SRS, FFT on the Domain, Evaluate on the Polynomial ...); with a writer that "
+        "blocks between Writes while the harness uses the same object and requires the solo result at that point (deterministic: the serialising "
+        "call is provably in progress); readers failing at the k-th Read, once, or returning one byte per Read, over a shared source buffer. "
+        "Whether a swallowed stream error is acceptable is not asked here (C07)",
         "goroutine scheduling is the only input not controlled by the rapid seed; a race needing an interleaving the runtime does not "
         "produce under the varied g / GOMAXPROCS / yields / -race instrumentation can be missed; timing is never used as a signal",
         "shared inputs are a deterministic function of VERIF_SEED (SHA-256 counter stream); ECDSA signatures are produced once with the "
@@ -110,7 +118,8 @@ PROP = dict(
         "the portable Go kernels are instrumented (small fields + misc in full, bn254 reduced in quick; all four curves reduced in thorough)",
         "every entry point is also exercised deterministically (sweep): 3 interleaved sequential calls and 4 concurrent goroutines x 2 calls",
     ],
-    mandatory_all=["decode_pool"] + ["decode:" + c for c in (
+    mandatory_all=["writer:fails_at_k", "writer:fails_once", "writer:short_write", "writer:slow_with_concurrent_use",
+                   "reader:fails_at_k", "reader:fails_once", "reader:one_byte", "decode_pool"] + ["decode:" + c for c in (
         "valid", "x_eq_p", "x_gt_p", "last_eq_p", "all_ones", "all_zero", "inf_dirty", "off_curve", "not_in_subgroup",
         "trunc_1", "trunc_half", "long_1", "empty", "flag_0", "flag_1", "flag_2", "flag_3", "flag_4", "flag_5", "flag_6", "flag_7")] + [
         "scribble_returned", "pool_interleave", "mode:pool", "g=2", "g=3", "g=8", "g=64", "P=1", "P=2", "P=3", "P=8", "P=16", "k=2", "k=5", "mode:same", "mode:pair", "mode:mix"],
@@ -120,21 +129,21 @@ PROP = dict(
         dict(name="coldstart-hashes", pkg="c14", run="^TestC14_ColdStart$", rapid=False, weight=4),
         # -race suite (asm build): shared-object concurrency under the race detector
         dict(name="race", pkg="c18", run="^TestC18_Concurrent$", race=True, shards=_race_curve_shards, env=RACE_ENV,
-             checks=(80, 1500), timeout=(1800, 5400), weight=9),
+             checks=(60, 1500), timeout=(1800, 5400), weight=9),
         dict(name="race-light", pkg="c18", run="^TestC18_Concurrent$", race=True, shards=_race_light_shards, env=RACE_ENV,
-             checks=(30, 600), timeout=(1800, 5400), weight=10),
+             checks=(22, 600), timeout=(1800, 5400), weight=10),
         dict(name="race-small", pkg="c18", run="^TestC18_Concurrent$", race=True, shards=SMALL + ["misc"], env=RACE_ENV,
              checks=(250, 4000), timeout=(1800, 5400), weight=6),
         # -race -tags purego: the assembly kernels are invisible to the race detector, the portable Go code is not
         dict(name="race-purego", pkg="c18", run="^TestC18_Concurrent$", race=True, tags="purego", shards=SMALL + ["misc"],
              env=RACE_ENV, checks=(100, 1500), timeout=(1800, 5400), weight=8),
         dict(name="race-purego-curve", pkg="c18", run="^TestC18_Concurrent$", race=True, tags="purego", shards=_race_purego_curve_shards,
-             env=RACE_ENV, checks=(20, 300), timeout=(1800, 7200), weight=11),
+             env=RACE_ENV, checks=(15, 300), timeout=(1800, 7200), weight=11),
         dict(name="race-seq", pkg="c18", run="^TestC18_Sequential$", race=True, shards=GROUPS + EXTRA_CURVES + PLAIN_CURVES, env=RACE_ENV,
              checks=(15, 300), timeout=(1800, 5400), weight=7, tiers=("thorough",)),
         # the three remaining pairing curves: a change confined to one curve's generated copy must not be invisible
-        dict(name="seq-extra", pkg="c18", run="^TestC18_Sequential$", shards=EXTRA_CURVES, checks=(300, 8000), timeout=(1800, 5400), weight=5),
-        dict(name="conc-extra", pkg="c18", run="^TestC18_Concurrent$", shards=EXTRA_CURVES, checks=(100, 3000), timeout=(1800, 5400), weight=5),
+        dict(name="seq-extra", pkg="c18", run="^TestC18_Sequential$", shards=EXTRA_CURVES, checks=(220, 8000), timeout=(1800, 5400), weight=5),
+        dict(name="conc-extra", pkg="c18", run="^TestC18_Concurrent$", shards=EXTRA_CURVES, checks=(80, 3000), timeout=(1800, 5400), weight=5),
         dict(name="race-extra", pkg="c18", run="^TestC18_Concurrent$", race=True, shards=_race_extra_shards, env=RACE_ENV,
              checks=(30, 600), timeout=(1800, 5400), weight=9, tiers=("thorough",)),
         # the curves without pairing (plain.tmpl): cheap registries, every suite in quick with modest counts
@@ -144,9 +153,9 @@ PROP = dict(
              checks=(60, 2500), timeout=(1800, 5400), weight=6),
         dict(name="race-purego-plain", pkg="c18", run="^TestC18_Concurrent$", race=True, tags="purego", shards=PLAIN_CURVES,
              env=RACE_ENV, checks=(25, 800), timeout=(1800, 5400), weight=8),
-        dict(name="conc", pkg="c18", run="^TestC18_Concurrent$", shards=GROUPS, checks=(400, 5000), timeout=(1800, 5400), weight=5),
-        dict(name="seq", pkg="c18", run="^TestC18_Sequential$", shards=FULL_CURVES + SMALL + ["misc"], checks=(1500, 20000), timeout=(1800, 5400), weight=4),
-        dict(name="seq-light", pkg="c18", run="^TestC18_Sequential$", shards=LIGHT_CURVES, checks=(700, 8000), timeout=(1800, 5400), weight=5),
+        dict(name="conc", pkg="c18", run="^TestC18_Concurrent$", shards=GROUPS, checks=(300, 5000), timeout=(1800, 5400), weight=5),
+        dict(name="seq", pkg="c18", run="^TestC18_Sequential$", shards=FULL_CURVES + SMALL + ["misc"], checks=(1200, 20000), timeout=(1800, 5400), weight=4),
+        dict(name="seq-light", pkg="c18", run="^TestC18_Sequential$", shards=LIGHT_CURVES, checks=(550, 8000), timeout=(1800, 5400), weight=5),
         dict(name="firstuse", pkg="c18", run="^TestC18_FirstUse$", race=True, rapid=False, shards=_first_use_shards, env=RACE_ENV,
              timeout=(1200, 1800), weight=2),
         dict(name="regress", pkg="c18", run="^TestC18_Regress", rapid=False, weight=1),
